@@ -172,7 +172,9 @@ pub fn run(ctx: &mut Ctx) {
                 m.values().copied().collect::<Vec<u32>>()
             });
             let got = res.ok();
-            ctx.check(&id, if is_perm { "dnm-from-pairs" } else { "dnm-from-pairs-reject" }, &["KX.k_dnm_from_pairs_accepts_permutations", "KX.k_dnm_from_pairs_rejects_gaps_and_duplicates"], got == want, format!("{:?}", got), format!("{:?} (None = must panic: gap or duplicate key)", want));
+            ctx.check(&id, if is_perm { "dnm-from-pairs" } else { "dnm-from-pairs-reject" }, &["KX.k_dnm_from_pairs_accepts_permutations", "KX.k_dnm_from_pairs_rejects_gaps_and_duplicates",
+                "DNX.from_pairs.body", "DNX.from_pairs.ensures.length", "DNX.from_pairs.ensures.total-map-of-the-pairs", "DNX.from_pairs.loop2.invariant.keys-are-the-pair-keys",
+                "DNX.from_pairs_or_panic.ensures.returns-only-if-the-keys-are-a-permutation", "DNX.from_pairs_or_panic.loop3.invariant.checked-keys-are-the-positions"], got == want, format!("{:?}", got), format!("{:?} (None = must panic: gap or duplicate key)", want));
         }
     }
 }
